@@ -5,7 +5,7 @@
 # Every scratch worktree and its isolated build directories are removed afterwards.
 cd /verif
 NAMES="$@"; [ -z "$NAMES" ] && NAMES=$(ls seeded)
-OUT=/verif/build/seed_replay.tsv; : > $OUT
+export OUT=/verif/build/seed_replay.tsv; : > $OUT
 one() {
   n=$1
   P=$(/venv/bin/python -c "import json;print(json.load(open('/verif/seeded/$n/meta.json'))['property'])")
